@@ -524,6 +524,9 @@ func specialKeys(c *specialCtx) {
 			// modifyOtherKeys set and then reset by the one-parameter form; the level in force is
 			// what the model's parser makes of it
 			setup += pick(newPrng(uint64(i)), []string{"\x1b[>4;2m\x1b[>4m", "\x1b[>4;1m\x1b[>4;m", "\x1b[>4;2m\x1b[>4;0m", "\x1b[>4;2m\x1b[>4;1m"})
+		case 2:
+			// flags reached by CLEARING bits (mode 3), some of which are not set at that point
+			setup = fmt.Sprintf("\x1b[=%du\x1b[=%d;3u", ts.flags|((ts.flags*3+1)%32), (ts.flags*5+9)%32) + fmt.Sprintf("\x1b[>4;%dm", ts.mok)
 		case 8:
 			// flags reached by popping more entries than were pushed (reset to 0), then set again or not
 			setup = fmt.Sprintf("\x1b[=%du\x1b[>%du\x1b[<2u", (ts.flags+3)%32, (ts.flags+8)%32) + pick(newPrng(uint64(i)), []string{"", fmt.Sprintf("\x1b[=%d;2u", ts.flags)}) + fmt.Sprintf("\x1b[>4;%dm", ts.mok)
